@@ -142,6 +142,12 @@ def check(ctx, rep):
         b1 = util.bexpr(ctx, t1, t1.ret)
         b2 = util.bexpr(ctx, t2, t2.ret)
         good = b1[0] == "H" and b2[0] == "H" and b1[1][1:] == b2[1][1:] and b1[1][0][0] == "const" and b2[1][0] == ("call", "srp_internal::calculate_xor_hash", (P(6), P(7)))
+    elif t1 is not None and t2 is None:
+        # the client's M1 function was folded into its caller: the end-to-end transcript of the
+        # constructor (C03 client view) against the server's function, leaf by leaf
+        cv = c03.client_view(ctx)
+        b1 = util.cb(util.bexpr(ctx, t1, t1.ret))
+        good = cv["M1"] and b1[0] == "H" and len(b1[1]) == 6 and b1[1][0][0] == "const" and b1[1][1] == util.cb(("H", (("text", P(1)),))) and b1[1][2:] == (P(5), P(3), P(4), P(2))
     rep.check(good, "same-derivation", "srp_internal::calculate_client_proof", "m1-siblings", "server's and client's M1 transcripts are identical except for the (pre)computed xor leaf", "the server's expected M1 and the client's M1 hash different transcripts")
     # M2: both sides call calculate_server_proof(A, M1, K)
     users = [b.path for b, bi, t in util.callers_of(fb, "srp_internal::calculate_server_proof") if not b.path.startswith("srp_internal::test")]
@@ -163,7 +169,18 @@ def check(ctx, rep):
     prod.sort()
     rep.check("srp_internal::calculate_session_key" in prod and any(p_.startswith("client::SrpClientChallenge::") for p_ in prod) and all(p_ == "srp_internal::calculate_session_key" or p_.startswith("client::SrpClientChallenge::") for p_ in prod), "same-derivation", "srp_internal::calculate_interleaved", "k-shared", "both sides derive K with the same interleave function", "K producers: %s" % prod)
     # ---- (c) padding at the copy sites
-    sites = [("bigint::Integer::to_padded_32_byte_array_le", 32), ("key::PublicKey::try_from_bigint", 32), ("key::PublicKey::client_try_from_bigint", 32)]
+    # the big-integer wrapper's own fixed-width export(s): whatever they are called, every
+    # function of `Integer` that turns the value into a byte array (`to_padded_32_byte_array_le`,
+    # a const-generic `to_padded_array_le::<32>` ...) - at least one must exist
+    sites = []
+    for b in fb.bodies.values():
+        if b.path.startswith("bigint::Integer::") and b.kind in ("Fn", "AssocFn") and "output" in b.d and len(b.d.get("inputs", [])) == 1 and not b.d.get("generics"):
+            out = fb.ty(b.d["output"])
+            if out.k == "array" and out.len is not None and fb.ty(b.d["inputs"][0]).peel_refs().path == "bigint::Integer":
+                sites.append((b.path, out.len))
+    if not sites:
+        sites.append(("bigint::Integer::to_padded_32_byte_array_le", 32))      # reported as missing
+    sites += [("key::PublicKey::try_from_bigint", 32), ("key::PublicKey::client_try_from_bigint", 32)]
     for b in fb.bodies.values():
         if b.path.endswith("as std::convert::From<bigint::Integer>>::from") and b.path.startswith("<key::"):
             adt = b.path[1:].split(" as ")[0]
@@ -233,6 +250,8 @@ def check(ctx, rep):
     # and who may construct are necessary for "typed in any letter case"
     from . import c13
     c13.check(ctx, rep_select(rep, "case", {"normal-form", "view", "who-may-construct", "constructors"}))
+    # a copy of the stored verifier / of the challenge state is the same value
+    util.clone_fidelity(ctx, rep, "roundtrip", ("server::SrpVerifier", "server::SrpProof", "server::SrpServer", "client::SrpClientChallenge", "client::SrpClient"))
 
 
 class rep_filter:
